@@ -478,6 +478,13 @@ def apply_obj_op(obj, kind, op, fx, D_of):
     if op["m"] == "birth_range=":
         obj.birth_range = (float(op["val"][0]), float(op["val"][1]))
         return None, []
+    if op["m"] == "shift_ranges":
+        # the window moves by a fraction of a pixel: same resolution, other pixel boundaries
+        s_ = float(op["val"]) * float(obj.pixel_size)
+        b_, p_ = tuple(obj.birth_range), tuple(obj.pers_range)
+        obj.birth_range = (float(b_[0]) + s_, float(b_[1]) + s_)
+        obj.pers_range = (float(p_[0]) + s_, float(p_[1]) + s_)
+        return None, []
     if op["m"] == "kparams[]=":
         # the user edits the public parameter dict of *this* imager in place
         obj.kernel_params["sigma"] = op["val"]
